@@ -1,8 +1,7 @@
 package main
 
-func c31()      {}
-func c32()      {}
-func c35()      {}
-func c30()      {}
-func c29()      {}
-func hostMain() {}
+func c35()     {}
+func c30()     {}
+func c29()     {}
+func c35Host() {}
+func c29Host() {}
